@@ -42,6 +42,8 @@ Value& MINExpression::value(Context & ctx) const
   Value& a0 = _args[0]->value(ctx);
   Value& a1 = _args[1]->value(ctx);
   Value v(Value::type_numeric);
+  /* a typed null has a major type but no payload */
+  const bool isnull = a0.isNull() || a1.isNull();
 
   switch (a0.type().major())
   {
@@ -54,10 +56,14 @@ Value& MINExpression::value(Context & ctx) const
       v = Value(Value::type_integer);
       break;
     case Type::INTEGER:
-      v = Value(Integer(std::min<int64_t>(*a0.integer(), *a1.integer())));
+      if (isnull)
+        v = Value(Value::type_integer);
+      else
+        v = Value(Integer(std::min<int64_t>(*a0.integer(), *a1.integer())));
       break;
     case Type::NUMERIC:
-      v = Value(Numeric(std::min<double>((double)*a0.integer(), *a1.numeric())));
+      if (!isnull)
+        v = Value(Numeric(std::min<double>((double)*a0.integer(), *a1.numeric())));
       break;
     default:
       throw RuntimeError(EXC_RT_FUNC_ARG_TYPE_S, KEYWORDS[oper]);
@@ -70,10 +76,12 @@ Value& MINExpression::value(Context & ctx) const
       v = Value(Value::type_numeric);
       break;
     case Type::INTEGER:
-      v = Value(Numeric(std::min<double>(*a0.numeric(), (double)*a1.integer())));
+      if (!isnull)
+        v = Value(Numeric(std::min<double>(*a0.numeric(), (double)*a1.integer())));
       break;
     case Type::NUMERIC:
-      v = Value(Numeric(std::min<double>(*a0.numeric(), *a1.numeric())));
+      if (!isnull)
+        v = Value(Numeric(std::min<double>(*a0.numeric(), *a1.numeric())));
       break;
     default:
       throw RuntimeError(EXC_RT_FUNC_ARG_TYPE_S, KEYWORDS[oper]);
